@@ -28,7 +28,7 @@ func (o Op) String() string {
 	switch o.K {
 	case "create", "suicide", "aladdr", "touch":
 		return fmt.Sprintf("%s(A%d)", o.K, o.A)
-	case "addbal", "subbal":
+	case "addbal", "subbal", "newacc":
 		return fmt.Sprintf("%s(A%d,%s)", o.K, o.A, o.V)
 	case "setnonce":
 		return fmt.Sprintf("setnonce(A%d,%d)", o.A, o.N)
@@ -90,10 +90,11 @@ type opsRun struct {
 	// known-finding exclusions (decided on the reference state alone)
 	ex       *exclusions
 	startBal map[ethcmn.Address]*big.Int // balance at the start of the current transaction
+	ghosts   *ghostTracker
 }
 
 func newOpsRun(c *OpsCase, ex *exclusions) *opsRun {
-	r := &opsRun{ad: newAdapter(), ref: newRef(), sparse: c.Sparse, blockN: 1, ex: ex, startBal: map[ethcmn.Address]*big.Int{}}
+	r := &opsRun{ad: newAdapter(), ref: newRef(), sparse: c.Sparse, blockN: 1, ex: ex, startBal: map[ethcmn.Address]*big.Int{}, ghosts: newGhostTracker()}
 	r.ad.seed(c.Accts)
 	r.ref.seed(c.Accts)
 	r.addrs = opAddrs
@@ -137,6 +138,10 @@ func (r *opsRun) excluded(o Op) bool {
 			}
 		}
 	}
+	if r.ex.on(exStale) && r.ghosts.revived(cp) {
+		r.ex.hit(exStale)
+		return true
+	}
 	return false
 }
 
@@ -156,6 +161,8 @@ func (r *opsRun) allowed(o Op) bool {
 		return ref.GetRefund() >= o.N
 	case "revert":
 		return int(o.N) < len(r.snaps)
+	case "newacc":
+		return !ref.Exist(opAddrs[o.A])
 	case "create":
 		// evm.create refuses an address that has a nonce or code; storage without either cannot exist
 		a := opAddrs[o.A]
@@ -188,7 +195,14 @@ func applyOp(s ethvm.StateDB, o Op) {
 	k := opSlots[o.S%len(opSlots)]
 	switch o.K {
 	case "create":
+		// evm.create: CreateAccount, then the EIP-161 nonce
 		s.CreateAccount(a)
+		s.SetNonce(a, 1)
+	case "newacc":
+		// evm.Call to an account that does not exist: CreateAccount, then the transfer's credit
+		s.CreateAccount(a)
+		v, _ := new(big.Int).SetString(o.V, 10)
+		s.AddBalance(a, v)
 	case "addbal":
 		v, _ := new(big.Int).SetString(o.V, 10)
 		s.AddBalance(a, v)
@@ -276,7 +290,9 @@ func (r *opsRun) step(i int, o Op) *violation {
 		if p := guard(func() { ferr = r.ad.sdb.Finalise(true) }); p != "" {
 			return &violation{"adapter-panic", "finalise", where + ": " + p}
 		}
+		r.ghosts.beforeFinalise(r.ref.sdb, r.addrs, r.slots)
 		r.ref.sdb.Finalise(true)
+		r.ghosts.afterFinalise(r.ref.sdb)
 		if ferr != nil {
 			return &violation{"finalise-error", "finalise", where + ": adapter Finalise returned an error the reference has no counterpart for: " + ferr.Error()}
 		}
@@ -338,7 +354,7 @@ var opKinds = []struct {
 	k string
 	w int
 }{
-	{"setstate", 10}, {"addbal", 5}, {"subbal", 4}, {"touch", 2}, {"setnonce", 3}, {"setcode", 3}, {"create", 3},
+	{"setstate", 10}, {"addbal", 5}, {"subbal", 4}, {"touch", 2}, {"setnonce", 3}, {"setcode", 3}, {"create", 3}, {"newacc", 2},
 	{"suicide", 3}, {"addrefund", 2}, {"subrefund", 2}, {"log", 2}, {"aladdr", 2}, {"alslot", 2}, {"prepal", 1},
 	{"snapshot", 7}, {"revert", 6}, {"finalise", 5}, {"block", 2}, {"read", 2},
 }
@@ -363,7 +379,7 @@ func genOp(c chooser, r *opsRun) Op {
 		switch kind {
 		case "create", "suicide", "aladdr", "touch", "prepal":
 			o.A = c.Int(0, len(opAddrs)-1, "a")
-		case "addbal":
+		case "addbal", "newacc":
 			o.A = c.Int(0, len(opAddrs)-1, "a")
 			o.V = pick(c, opAmount, "amt")
 		case "subbal":
